@@ -383,7 +383,8 @@ impl<'tcx> Dumper<'tcx> {
             // a const item nested in a generic fn that does not use the parameters
             let mut done = false;
             if let Const::Unevaluated(uv, _) = c {
-                if uv.promoted.is_none() {
+                let evaluable = !matches!(tcx.def_kind(uv.def), DefKind::AssocConst { .. }) || tcx.defaultness(uv.def).has_value();
+                if uv.promoted.is_none() && evaluable {
                     let did = uv.def;
                     let r = std::panic::catch_unwind(std::panic::AssertUnwindSafe(|| tcx.const_eval_poly(did)));
                     if let Ok(Ok(val)) = r {
@@ -951,7 +952,13 @@ impl rustc_driver::Callbacks for Cb {
                         vec![("path", esc(&d.path(did))), ("ty", d.ty(t).to_string()), ("sp", d.span(tcx.def_span(did)))];
                     let gens = tcx.generics_of(did);
                     let _ = gens;
-                    if !matches!(tcx.def_kind(did), DefKind::Static { .. }) {
+                    // an associated const declared in a trait without a default has no body to evaluate
+                    let has_value = if matches!(tcx.def_kind(did), DefKind::AssocConst { .. }) {
+                        tcx.defaultness(did).has_value()
+                    } else {
+                        true
+                    };
+                    if has_value && !matches!(tcx.def_kind(did), DefKind::Static { .. }) {
                         let r = std::panic::catch_unwind(std::panic::AssertUnwindSafe(|| tcx.const_eval_poly(did)));
                         if let Ok(Ok(val)) = r {
                             d.const_value(&val, t, &mut items);
@@ -985,6 +992,34 @@ impl rustc_driver::Callbacks for Cb {
                         its.push(obj(&[("name", esc(it.name().as_str())), ("path", esc(&d.path(it.def_id)))]));
                     }
                     items.push(("items", arr(&its)));
+                    // the trait's associated consts as this impl sees them (overridden or defaulted), evaluated with
+                    // Self = the impl's type: `<Impl as Trait>::NAME`
+                    if let Some(tr) = tcx.impl_opt_trait_ref(did) {
+                        let tr = tr.instantiate_identity().skip_norm_wip();
+                        let generic_impl = tcx.generics_of(did).count() > 0;
+                        if tr.def_id.is_local() && !generic_impl {
+                            for it in tcx.associated_items(tr.def_id).in_definition_order() {
+                                if !matches!(tcx.def_kind(it.def_id), DefKind::AssocConst { .. }) {
+                                    continue;
+                                }
+                                let uv = rustc_middle::mir::UnevaluatedConst::new(it.def_id, tr.args);
+                                let r = std::panic::catch_unwind(std::panic::AssertUnwindSafe(|| {
+                                    tcx.const_eval_resolve(TypingEnv::fully_monomorphized(), uv, rustc_span::DUMMY_SP)
+                                }));
+                                if let Ok(Ok(val)) = r {
+                                    let ct = tcx.type_of(it.def_id).instantiate(tcx, tr.args).skip_norm_wip();
+                                    let mut ci: Vec<(&'static str, String)> = vec![
+                                        ("path", esc(&format!("<{} as {}>::{}", st, d.path(tr.def_id), it.name().as_str()))),
+                                        ("ty", d.ty(ct).to_string()),
+                                        ("sp", d.span(tcx.def_span(it.def_id))),
+                                        ("via_impl", b(true)),
+                                    ];
+                                    d.const_value(&val, ct, &mut ci);
+                                    consts.push(obj(&ci));
+                                }
+                            }
+                        }
+                    }
                     impls.push(obj(&items));
                 }
                 DefKind::Fn | DefKind::AssocFn => {
